@@ -355,7 +355,15 @@ func init() {
 		if ref := setCompact(uint32(n)); ref.Cmp(t) != 0 {
 			direct = append(direct, "target differs from SetCompact: "+ref.String())
 		}
-		return "ok " + t.String(), direct
+		// the caller goes on computing with the integer it was given (chain work: target + 1); the next header
+		// with the same nBits has the same target
+		ans := "ok " + t.String()
+		t.Add(t, big.NewInt(1))
+		t.Lsh(t, 3)
+		if t2 := (&blockheader.BlockHeader{NBits: uint32(n)}).TargetNBits(); "ok "+t2.String() != ans {
+			direct = append(direct, "the target of the same nBits changed after the caller computed with the integer returned by the first call: "+t2.String())
+		}
+		return ans, direct
 	})
 }
 
